@@ -139,6 +139,7 @@ pub struct World<'a> {
     pub probes: Probes,
     /// an unspecified corner (DESIGN.md section 2) was exercised in this case
     pub unspecified: bool,
+    pub failed_without_alt: bool,
     pub stats: Stats,
     /// (node address, position) pairs already counted as model states for this case
     visited: Vec<(usize, u32)>,
@@ -162,6 +163,7 @@ impl<'a> World<'a> {
             sw,
             probes,
             unspecified: false,
+            failed_without_alt: false,
             stats: Stats::default(),
             visited: Vec::new(),
         }
@@ -264,6 +266,20 @@ impl<'a> World<'a> {
 
     fn custom_err(&self, pos: usize, span: (usize, usize), msg: &str) -> Alt {
         Alt { pos, span, found: None, found0: None, exp: BTreeSet::new(), custom: Some(msg.to_string()), ctx: vec![] }
+    }
+
+    /// A failing parser always leaves a pending error.  Only an as-implemented switch
+    /// (collect_exactly_no_alt) can break that; the model then records the fact and continues
+    /// with an expectation-free error (the implementation panics or fabricates one there).
+    fn take_alt_or_fake(&mut self, pos: usize) -> Alt {
+        match self.alt.take() {
+            Some(a) => a,
+            None => {
+                assert!(self.sw.0 != 0, "model: failure without a pending error");
+                self.failed_without_alt = true;
+                Alt { pos, span: (pos, pos), found: None, found0: None, exp: BTreeSet::new(), custom: None, ctx: vec![] }
+            }
+        }
     }
 
     fn visit(&mut self, g: &G, pos: usize) {
@@ -421,7 +437,7 @@ fn run_sink(
 ) -> R {
     let mut p = pos;
     match sink {
-        Sink::Vec | Sink::Count | Sink::Bare | Sink::Enumerate => {
+        Sink::Vec | Sink::Count | Sink::Bare | Sink::Enumerate | Sink::Str => {
             let mut vs = vec![];
             loop {
                 match next(vs.len(), &mut p, w) {
@@ -436,6 +452,7 @@ fn run_sink(
                     Sink::Vec => Val::L(vs),
                     Sink::Count => Val::N(vs.len()),
                     Sink::Bare => Val::U,
+                    Sink::Str => Val::L(vs.iter().map(|v| Val::T(char_of(v))).collect()),
                     _ => Val::L(vs.into_iter().enumerate().map(|(i, v)| Val::P(bx(Val::N(i)), bx(v))).collect()),
                 },
             ))
@@ -694,13 +711,42 @@ fn eval0(g: &G, pos: usize, env: Env, w: &mut World) -> R {
             let (e, v) = eval(a, pos, env, w)?;
             Some((e, v))
         }
-        ToSlice(a) => {
+        ToSlice(a) | SliceWith(a) => {
             let (e, _) = eval(a, pos, env, w)?;
             Some((e, Val::Sl(pos, t[pos..e].iter().collect())))
         }
-        ToSpan(a) => {
+        ToSpan(a) | SpanWith(a) => {
             let (e, _) = eval(a, pos, env, w)?;
             Some((e, Val::Sp(pos, e)))
+        }
+        Snd(a) => {
+            let (e, v) = eval(a, pos, env, w)?;
+            Some((e, snd_of(v)))
+        }
+        Fst(a) => {
+            let (e, v) = eval(a, pos, env, w)?;
+            Some((e, fst_of(v)))
+        }
+        Mid(a) => {
+            let (e, v) = eval(a, pos, env, w)?;
+            Some((e, mid_of(v)))
+        }
+        MapUnit(a) => {
+            let (e, _) = eval(a, pos, env, w)?;
+            Some((e, Val::U))
+        }
+        MapZ(a) => {
+            let (e, _) = eval(a, pos, env, w)?;
+            Some((e, Val::Z))
+        }
+        Lazy(a) => {
+            // a.then_ignore(any().repeated())
+            let (e, v) = eval(a, pos, env, w)?;
+            for p in e..t.len() {
+                w.consume(p);
+            }
+            w.tok_fail(t.len(), &[Exp::Any]);
+            Some((t.len(), v))
         }
         Filter(a) => {
             let (e, v) = eval(a, pos, env, w)?;
@@ -832,7 +878,7 @@ fn eval0(g: &G, pos: usize, env: Env, w: &mut World) -> R {
             let old = w.alt.take();
             let r = eval(a, pos, env, w);
             if r.is_none() {
-                let mut n = w.alt.take().expect("model: failure without a pending error");
+                let mut n = w.take_alt_or_fake(pos);
                 if n.custom.is_none() {
                     n.exp.insert(Exp::Label("M".into()));
                 }
@@ -976,7 +1022,7 @@ fn eval0(g: &G, pos: usize, env: Env, w: &mut World) -> R {
                 return Some(r);
             }
             w.rewind(m0);
-            let alt = w.alt.take().expect("model: failure without a pending error");
+            let alt = w.take_alt_or_fake(pos);
             match eval(f, pos, env, w) {
                 Some((e, v)) => {
                     let mut a2 = alt;
@@ -998,7 +1044,7 @@ fn eval0(g: &G, pos: usize, env: Env, w: &mut World) -> R {
                 return Some(r);
             }
             w.rewind(m0);
-            let alt = w.alt.take().expect("model: failure without a pending error");
+            let alt = w.take_alt_or_fake(pos);
             match nd_eval(pos, w) {
                 Some(e) => {
                     let mut a2 = alt;
@@ -1020,7 +1066,7 @@ fn eval0(g: &G, pos: usize, env: Env, w: &mut World) -> R {
                 return Some(r);
             }
             w.rewind(m0);
-            let alt = w.alt.take().expect("model: failure without a pending error");
+            let alt = w.take_alt_or_fake(pos);
             let mut p = pos;
             loop {
                 let m1 = w.mark();
@@ -1055,7 +1101,7 @@ fn eval0(g: &G, pos: usize, env: Env, w: &mut World) -> R {
                 return Some(r);
             }
             w.rewind(m0);
-            let alt = w.alt.take().expect("model: failure without a pending error");
+            let alt = w.take_alt_or_fake(pos);
             let mut p = pos;
             loop {
                 let m1 = w.mark();
@@ -1125,6 +1171,9 @@ pub struct Outcome {
     pub matched_prefix: Option<usize>,
     pub final_state: (u32, u64),
     pub unspecified: bool,
+    /// only possible with an as-implemented switch on: a parser failed without leaving an error,
+    /// so the reported error is whatever the top level fabricates (not compared)
+    pub failed_without_alt: bool,
 }
 
 pub const CTX0: Tok = '\0';
@@ -1146,12 +1195,12 @@ pub fn parse(g: &G, toks: &[Tok], sw: Sw, probes: Probes) -> (Outcome, Stats) {
         }
         None => None,
     };
-    let primary = if output.is_none() { Some(w.alt.clone().expect("model: failure without a pending error")) } else { None };
+    let primary = if output.is_none() { Some(w.take_alt_or_fake(0)) } else { None };
     if w.unspecified {
         w.stats.unspecified += 1;
     }
     (
-        Outcome { output, emitted: w.emitted.clone(), primary, matched_prefix, final_state: w.state, unspecified: w.unspecified },
+        Outcome { output, emitted: w.emitted.clone(), primary, matched_prefix, final_state: w.state, unspecified: w.unspecified, failed_without_alt: w.failed_without_alt },
         w.stats,
     )
 }
